@@ -625,6 +625,42 @@ func (d *brokerDrv) Step(line string) string {
 		if c == nil || c.EOF() {
 			return "no-conn"
 		}
+		if bl, ok := m["burst"]; ok {
+			// `close <conn> burst=<pid>:<tag>,… q=<qos> topic=<t>`: the PUBLISH packets and the end of the stream reach the
+			// broker at once (a publisher that pipelines a burst and loses its connection): packets still buffered when the
+			// broker notices the end must be handled like any other packet that was received. The publisher sees none of
+			// the answers; its own part of the output is left out on both sides.
+			var buf bytes.Buffer
+			for _, it := range strings.Split(bl, ",") {
+				ps := strings.SplitN(it, ":", 2)
+				if len(ps) != 2 {
+					return "bad-op"
+				}
+				pp := &packets.Publish{Version: c.Version, TopicName: []byte(unesc(m["topic"])), Qos: byte(geti(m, "q", 2)),
+					PacketID: packets.PacketID(drv.Atoi(ps[0])), Payload: []byte(ps[1])}
+				if c.Version == 5 {
+					pp.Properties = &packets.Properties{}
+				}
+				n0 := buf.Len()
+				if err := packets.NewWriter(&buf).WriteAndFlush(pp); err != nil {
+					return "bad-op"
+				}
+				c.NoteSent(packets.PUBLISH, buf.Len()-n0, pp.Qos)
+			}
+			if err := c.SendRawThenClose(buf.Bytes()); err != nil {
+				return "send-failed " + d.collect("")
+			}
+			var keep []string
+			for _, part := range strings.Split(d.collect(""), " ") {
+				if !strings.HasPrefix(part, pos[0]+"|") {
+					keep = append(keep, part)
+				}
+			}
+			if len(keep) == 0 {
+				return "-"
+			}
+			return strings.Join(keep, " ")
+		}
 		c.Close()
 		return d.collect("")
 	case "raw":
